@@ -829,6 +829,10 @@ def execute(sc, profile=False):
         # probes
         if failed and before[0]:
             core.bump(res['probes'], 'failed-with-existing-destination')
+        if failed and sc.get('dest_dangling'):
+            core.bump(res['probes'], 'failed-with-dangling-link-as-destination')
+        if failed and sc.get('stale_fmt_sibling'):
+            core.bump(res['probes'], 'failed-overwrite-beside-a-stale-fmt-sibling')
         if failed and len(dests) > 1 and ctl['returned'] == 1:
             core.bump(res['probes'], 'second-of-two-carts-failed')
         if failed and sc['route'] in ('lib-overwrite', 'luafmt-overwrite'):
